@@ -69,8 +69,15 @@ def proxied_worker(args, scratch):
         if args["shard"] % 2 == 0:
             w.shim.call("event_reader_start", dir=scratch + "/events", interval_ms=40, delay_start=False)
         conn, left = None, 0
+        current_guid = guid
         for n in range(args["requests"]):
             vid = "c04-%d-%d" % (args["shard"], n)
+            if n % 60 == 59:
+                # the key keeper latches another key; connections that are open stay open
+                current_guid = "aaaaaaaa-%04x-4000-8000-%012x" % (n, args["shard"])
+                keys[current_guid] = "%064x" % r.getrandbits(256)
+                w.key(current_guid, keys[current_guid])
+                bump("key_changes_with_open_connections" if conn is not None and left > 0 else "key_changes")
             method = r.choice(["GET", "GET", "POST", "PUT", "DELETE", "PATCH"])
             q, qfeat = gen_query(r)
             path = r.choice(PATHS)
@@ -127,7 +134,9 @@ def proxied_worker(args, scratch):
                 bump("exempt")
                 continue
             bump("verdict:" + verdict)
-            if verdict == "ok":
+            if verdict in ("ok", "ok-lenient") and detail[0] != current_guid:
+                res["violations"].append(["proxied-request-signed-with-a-key-that-is-no-longer-latched", dict(wit, latched=current_guid)])
+            elif verdict == "ok":
                 pass
             elif verdict == "ok-lenient":
                 bump("ambiguous:%s" % "/".join(detail[1]))
